@@ -270,7 +270,7 @@ Definition takes (c : cmd) (b : builder) : bool :=
   | CBeginList, BList _ _ _ => true
   | CBeginTuple n, BTuple cs len _ _ => (len =? -1) || (zlen cs =? n)
   | CBeginRecord nm, BRecord _ _ rn nullp len _ _ _ =>
-      (len =? -1) || match nm with Some s => name_eqb rn s | None => nullp end
+      (len =? -1) || match nm with Some s => negb nullp && name_eqb rn s | None => nullp end
   | _, _ => false
   end.
 Definition is_int (b : builder) : bool := match b with BInt _ => true | _ => false end.
@@ -420,7 +420,7 @@ Fixpoint step (b : builder) (c : cmd) {struct b} : sres :=
             then (0, match nm with Some s => s | None => [] end, match nm with Some _ => false | None => true end)
             else (len, rn, nullp) in
           let self1 := BRecord cs keys rn1 nullp1 len1 begun ni ntt in
-          let same := match nm with Some s => name_eqb rn1 s | None => nullp1 end in
+          let same := match nm with Some s => negb nullp1 && name_eqb rn1 s | None => nullp1 end in
           if negb begun && same then SOk (BRecord cs keys rn1 nullp1 len1 true (-1) 0) None
           else if negb begun then union_wrap o self1 c
           else if ni =? -1 then SErr EValue self1
